@@ -23,10 +23,10 @@ for pid in sorted(PROPS):
 out.append("\nNot applicable: none — every property has a logic core that M expresses; where part of the truth lives in the\n"
            "runtime (native stack bytes, process I/O, wasm, JSON-RPC) the MANIFEST `level_note` names the part that is only exercised.\n")
 out.append("\n---------------------------------------------------------------------------\n\n## 6. Seeded changes: which check catches which\n\n"
-           "Eighty changes (four per property, in two rounds) were written by fresh sub-agents that saw only the property text and a\n"
+           "Ninety-two changes (four per property in two rounds, twelve more in a third) were written by fresh sub-agents that saw only the property text and a\n"
            "scratch worktree (the second round was also told what the first had tried, so as not to repeat it); each compiles,\n"
            "passes the 153 existing tests, and comes with a demonstration that fails with the change and passes without it\n"
-           "(confirmed here with `tools/confirm_seed.sh`).  They are kept under `seeded/<id>-<a|b|c|d>/` (`patch.diff`, demo,\n"
+           "(confirmed here with `tools/confirm_seed.sh`).  They are kept under `seeded/<id>-<a..f>/` (`patch.diff`, demo,\n"
            "`meta.json`) and were run with `tools/try_seed.sh` (apply to /repo, `./check`, undo).\n\n"
            "Round 2 (`-c`, `-d`) was run against the checks as they stood after round 1: 22 of 40 were reported at once, 18 were\n"
            "MISSED by the quick tier (C01-c, C02-c, C03-c, C03-d, C04-d, C05-d, C06-c, C08-d, C10-c, C10-d, C11-c, C11-d, C12-c,\n"
@@ -41,6 +41,19 @@ out.append("\n------------------------------------------------------------------
            "whole sessions in two spellings (C12); end-of-line text with trailing blanks (C15); algebraic predecessors of special\n"
            "generator states, RND inside RUN (C18); string-pool / STATS and 200..1000-line LIST scenarios on the page (C19).\n"
            "All eighty are now reported by the quick tier, most with a concrete failing input (the table says which).\n\n"
+           "Round 3 (`-e`, `-f`; six properties, told about both earlier rounds): 5 of 12 reported at once, 7 MISSED (C01-e, C01-f,\n"
+           "C03-e, C03-f, C08-e, C10-e, C11-e), and C11-f was first caught by one lucky random case and lost again when an\n"
+           "unrelated generator change shifted the random stream - detection by luck is not detection.  Added: non-ASCII\n"
+           "numerals where a line number is expected; nesting that passes through a user-function call around the cap;\n"
+           "31..33 loops with distinct variables and a jump back into a FOR line; every run of PRINT separators at the end of\n"
+           "the statement (reference interpreter extended); reply / break / RUN; edits inside C10 histories (mirrored in the\n"
+           "fresh interpreter) and DATA-line deletion after a READ; DATA-less programs whose READ already failed; programs that\n"
+           "ended on their own before the edit.  C19-f changed `abasic-web/ts/main.ts` itself, which no check executed (only a\n"
+           "hand transliteration): the check now ALSO runs the page script - `class Interpreter` and the submit handler,\n"
+           "type-stripped, under node - against the real adapter and demands agreement with the transliteration and the model\n"
+           "on every event (`harness/page/page_driver.js`, `harness/src/realpage.rs`, oracle `page-script-same`).\n"
+           "The lesson kept from three rounds: misses were always generator reach, so every miss was answered with a\n"
+           "*family* of inputs (a dimension of the input space), and the evidence file prints the distribution of families.\n\n"
            "| seed | needs, in order to manifest | result |\n|---|---|---|\n")
 for d in sorted(glob.glob(os.path.join(V, "seeded", "*"))):
     m = json.load(open(os.path.join(d, "meta.json")))
